@@ -87,6 +87,35 @@ pub fn run_c14_order<A: Cx>(d: &mut Drv<A>) {
     for &aa in &aminos {
         d.emit(json!({"op": "trytocodon", "aa": aa}));
     }
+    // the same few codons asked again and again in random order (answers must not depend on what was
+    // asked before): pools of 2..5 codons, determinate and ambiguous ones mixed, forward and reverse calls
+    for _ in 0..40 {
+        let np = d.rng.range(2, 5);
+        let pool: Vec<Vec<u8>> = (0..np)
+            .map(|i| {
+                if i % 2 == 0 {
+                    // a determinate one: unambiguous bases, or a four-fold degenerate third position
+                    let b = [8u8, 4, 2, 1];
+                    vec![*d.rng.pick(&b), *d.rng.pick(&b), *d.rng.pick(&[8u8, 4, 2, 1, 15, 10, 5])]
+                } else {
+                    d.rand_syms(3)
+                }
+            })
+            .collect();
+        let mut t = Vec::new();
+        for c in &pool {
+            t.extend_from_slice(c);
+        }
+        d.emit(json!({"op": "fromsyms", "dst": 1, "c": "iupac", "via": "iter", "syms": t}));
+        for _ in 0..30 {
+            let i = d.rng.below(np);
+            d.emit(json!({"op": "trytoamino", "src": sl(1, 3 * i, 3 * i + 3)}));
+            if d.rng.chance(1, 6) {
+                let aa = *d.rng.pick(&aminos);
+                d.emit(json!({"op": "trytocodon", "aa": aa}));
+            }
+        }
+    }
 }
 
 pub fn run_c14<A: Cx>(d: &mut Drv<A>, offsets: &[usize]) {
@@ -190,6 +219,70 @@ pub fn run_c15<A: Cx>(d: &mut Drv<A>, scale: usize) {
             }
             for &aa in pool.iter().chain(aminos.iter().take(5)) {
                 d.emit(json!({"op": "tablecodon", "t": t, "aa": aa}));
+            }
+        }
+        // ---- tables whose keys have DIFFERENT lengths, up to and beyond a machine word, and are related
+        // bit-wise: a short key, the same key zero-extended to a full word, and the same key followed by the
+        // symbol whose pattern is 1 and then zeros (as integers these differ only in one high bit)
+        if round % 3 == 2 {
+            let w = A::BITS as usize;
+            let full = 64 / w;
+            let pats = d.patterns();
+            let zero = if pats.contains(&0) { Some(A::try_from_bits(0).unwrap().to_bits()) } else { None };
+            let one = if pats.contains(&1) { Some(A::try_from_bits(1).unwrap().to_bits()) } else { None };
+            let mut keys: Vec<Vec<u8>> = Vec::new();
+            let mut push = |keys: &mut Vec<Vec<u8>>, k: Vec<u8>| {
+                if !keys.contains(&k) {
+                    keys.push(k);
+                }
+            };
+            for l in [1usize, 2, 3] {
+                let k = d.rand_syms(l);
+                push(&mut keys, k.clone());
+                if let (Some(z), Some(o)) = (zero, one) {
+                    for total in [full - 1, full, full + 1] {
+                        if total > l {
+                            let mut a = k.clone();
+                            a.resize(total, z);
+                            push(&mut keys, a);
+                            let mut b = k.clone();
+                            b.push(o);
+                            b.resize(total.max(l + 1), z);
+                            push(&mut keys, b);
+                        }
+                    }
+                }
+            }
+            for l in [full - 1, full, full + 1, 2 * full] {
+                let k = d.rand_syms(l);
+                push(&mut keys, k);
+            }
+            // leave some of the related keys OUT of the table: they are queried as non-keys
+            let mut nonkeys: Vec<Vec<u8>> = Vec::new();
+            let mut kept: Vec<Vec<u8>> = Vec::new();
+            for (i, k) in keys.into_iter().enumerate() {
+                if i % 3 == 1 { nonkeys.push(k) } else { kept.push(k) }
+            }
+            let pool: Vec<u8> = (0..4).map(|_| *d.rng.pick(&aminos)).collect();
+            let entries: Vec<Value> = kept.iter().map(|k| json!({"k": k, "v": *d.rng.pick(&pool), "mk": "collect"})).collect();
+            for rep in 0..2 {
+                let via = ["hashmap", "vec"][rep % 2];
+                d.emit(json!({"op": "tablenew", "t": rep, "c": A::NAME, "entries": entries, "via": via}));
+                let off = d.rng.below(40);
+                let mut parent = d.rand_syms(off);
+                let mut spans = Vec::new();
+                for k in kept.iter().chain(nonkeys.iter()) {
+                    spans.push((parent.len(), parent.len() + k.len()));
+                    parent.extend_from_slice(k);
+                }
+                parent.extend(d.rand_syms(1));
+                d.emit(json!({"op": "fromsyms", "dst": 0, "c": A::NAME, "via": "iter", "syms": parent}));
+                for (a, b) in spans {
+                    d.emit(json!({"op": "tableamino", "t": rep, "src": sl(0, a, b)}));
+                }
+                for &aa in &pool {
+                    d.emit(json!({"op": "tablecodon", "t": rep, "aa": aa}));
+                }
             }
         }
         if round % 8 == 7 {
